@@ -12,7 +12,7 @@ pub fn info() -> PropInfo {
     PropInfo {
         id: "C09",
         level: "exploration",
-        rule: "proptest: library-issued credentials (one in five: signed by the harness as another issuer implementation would, nothing selectively disclosable; with key binding one in four: the KB-JWT replaced by a harness-made one whose own iat is years old, must-reject direction only) x exp in {absent, null, string, negative, now-10y..now-120s (int/float)} (must reject) or {now+1h..2100} (must accept) x nbf in {absent, past} (accept) or {now+120s..now+10y} (reject), iat untouched / equal to nbf / equal to exp / absent / far future (no effect on the expectation), nbf kept visible (NoSD / Custom not listing it) x format x key binding x selection; instants are computed from the wall clock at execution, never within 120 s of a boundary; oracle: accept/reject table, accepted => claims == view. Every case is non-trivial (each has a defined expectation). Distinct: hash of the case JSON.",
+        rule: "proptest: library-issued credentials (one in five: signed by the harness as another issuer implementation would, nothing selectively disclosable; with key binding one in four: the KB-JWT replaced by a harness-made one whose own iat is years old, must-reject direction only) x exp in {absent, null, string, negative, now-10y..now-120s (int/float)} (must reject) or {now+1h..2100} (must accept) x nbf in {absent, past} (accept) or {now+120s..now+10y, instants at the edges of i32 / u32 / 2^53 / i64 / u64 as integer or float} (reject), exp also at those edges (accept), iat untouched / equal to nbf / equal to exp / absent / far future (no effect on the expectation), nbf kept visible (NoSD / Custom not listing it) x format x key binding x selection; instants are computed from the wall clock at execution, never within 120 s of a boundary; oracle: accept/reject table, accepted => claims == view. Every case is non-trivial (each has a defined expectation). Distinct: hash of the case JSON.",
         assumptions: &["|harness clock - verifier clock| < 60 s within one case (same process)", "void when issuance / presentation fails"],
         needs_mock: false,
         rounds: 4,
@@ -32,11 +32,13 @@ pub fn strategy() -> BoxedStrategy<Case> {
         1 => (1i64..i64::MAX).prop_map(ExpSpec::Negative),
         4 => (secs(120, TEN_YEARS), any::<bool>()).prop_map(|(secs, float)| ExpSpec::Past { secs, float }),
         8 => (secs(3600, 2_300_000_000), any::<bool>()).prop_map(|(secs, float)| ExpSpec::Future { secs, float }),
+        1 => (0u8..9, any::<bool>()).prop_map(|(idx, float)| ExpSpec::Edge { idx, float }),
     ];
     let nbf = prop_oneof![
         4 => Just(NbfSpec::Absent),
         3 => (prop_oneof![0u64..60, 0u64..86_400, 0u64..TEN_YEARS], any::<bool>()).prop_map(|(secs, float)| NbfSpec::Past { secs, float }),
         4 => (secs(120, TEN_YEARS), any::<bool>()).prop_map(|(secs, float)| NbfSpec::Future { secs, float }),
+        1 => (0u8..9, any::<bool>()).prop_map(|(idx, float)| NbfSpec::Edge { idx, float }),
     ];
     (
         issue_spec_strategy(ClaimCfg::SHORT_F64, HONEST_PATHS, holder_strategy()),
